@@ -21,7 +21,6 @@ import shutil
 from html.parser import HTMLParser
 
 from ..lib import cbuild
-from ..lib.common import MachineryError
 
 UNKNOWN = 999999
 PUNCT_SUFFIX = ['.', ',', ';', ':', '!', '?', ')', '&', '>', "'s", '...']
@@ -134,8 +133,7 @@ def tight_lengths(rng, avail, nlines, lastlen, first_extra=0):
         chk = list(lens)
         chk[0] += first_extra
         g = greedy(chk, avail)
-        want_last = lastlen if nlines > 1 else lastlen  # for one line the extra is part of lastlen
-        if len(g) == nlines and sum(chk[i] for i in g[-1]) + len(g[-1]) - 1 == want_last:
+        if len(g) == nlines and sum(chk[i] for i in g[-1]) + len(g[-1]) - 1 == lastlen:
             return lens
     return None
 
